@@ -143,8 +143,8 @@ func (l LPMIndex[Obj]) indexName() string {
 }
 
 func (l LPMIndex[Obj]) ObjectToKey(obj Obj) index.Key {
-	for key := range l.FromObject(obj) {
-		return key
+	for data, prefixLen := range l.FromObject(obj) {
+		return lpm.EncodeLPMKey(data, prefixLen)
 	}
 	return nil
 }
